@@ -503,6 +503,7 @@ func GenSession(prop string, seed uint64, thorough bool) *Scenario {
 	}
 	// application
 	nsend := g.rng(1, p.senders)
+	slowUsed := map[string]bool{}
 	for s := 0; s < nsend; s++ {
 		task := fmt.Sprintf("s%d", s+1)
 		n := g.rng(0, p.sendsMax)
@@ -530,8 +531,17 @@ func GenSession(prop string, seed uint64, thorough bool) *Scenario {
 					op.Size = g.pick(16, 30, 60)
 				}
 			}
-			if op.Binary && g.p(0.12) {
-				op.SlowMs = g.pick(1, 5, 30)
+			if op.Binary && g.p(0.12) && !slowUsed[cl.Name] {
+				// the reader holds up the batch it travels in, a ping included: one per session, and well inside the
+				// heartbeat budget, or it becomes a (legitimate) cause of ping timeouts
+				ms := g.pick(1, 5, 30)
+				for ms > 1 && ms+6*cl.LatencyMs+cl.PollGapMs+maxInt(cl.PongDelayMs) >= pt/2 {
+					ms /= 2
+				}
+				if ms+6*cl.LatencyMs+cl.PollGapMs+maxInt(cl.PongDelayMs) < pt/2 {
+					op.SlowMs = ms
+					slowUsed[cl.Name] = true
+				}
 			}
 			if g.p(p.pNoCompress) {
 				op.Opt = "nocompress"
